@@ -89,13 +89,29 @@ pub fn error_class(e: &quick_xml::Error) -> String {
 pub fn verdict<R: BufRead>(reader: &mut Reader<R>, initial: bool) -> Verdict {
     let mut buf = Vec::new();
     let mut elements = 0usize;
+    let mut depth = 0usize;
     loop {
         match reader.read_event_into(&mut buf) {
             Err(e) => {
                 return Verdict::Syntax { pos: reader.buffer_position(), dbg: format!("{e:?}"), class: error_class(&e) };
             }
             Ok(Event::Eof) => break,
-            Ok(Event::Start(e)) | Ok(Event::Empty(e)) => {
+            Ok(Event::End(_)) => {
+                // An end tag that closes nothing opened *in this call* ends the call: the caller had consumed the
+                // matching start tag itself (with a fresh default reader it cannot happen - the reader reports it)
+                if depth == 0 {
+                    break;
+                }
+                depth -= 1;
+            }
+            Ok(Event::Start(e)) => {
+                if let Some(v) = tag_check(&e) {
+                    return v;
+                }
+                elements += 1;
+                depth += 1;
+            }
+            Ok(Event::Empty(e)) => {
                 if let Some(v) = tag_check(&e) {
                     return v;
                 }
